@@ -141,6 +141,17 @@ async fn episode(p: &EpParams) -> EpReport {
         if remaining > 0 && pulls < 200 {
             rep.viol("C15", "C15:backlog-not-drained", format!("limit {} backlog {}: {} messages never returned", limit, backlog, remaining));
         }
+        if backlog > 0 && backlog <= 1001 {
+            // everything is leased now (deadline 600 s): a blocking pull on the drained subscription
+            // must wait for its limit even though earlier notifications were never consumed by a waiter
+            let t0 = seq.now();
+            let got = seq.pull(&s, limit, false).await; // the model flags an early empty answer
+            let dt = seq.now() - t0;
+            if got.is_empty() {
+                rep.obs("drained_blocking_pull_s", (dt / SEC) as i64);
+                rep.inc("blocking_pull_after_drain_timed");
+            }
+        }
         rep.nontrivial = true;
         rep.key = format!("limit={} backlog={} blocking={}", limit, backlog, blocking);
     } else if idx < n_grid(p) + n_stream(p) {
